@@ -521,6 +521,57 @@ def observe_twin(case, x, u, d):
     return o
 
 
+def run_trajectory(case: dict) -> list[dict]:
+    """closed loop: a compiled function (with flows) is iterated, feeding every result named `n+` back as the argument
+    named `n`; every step becomes one record, so that TLC validates the whole execution step by step.
+    case["traj"] = {"steps": K, "sym": "SX"|"MX", "compact": 0|1|2, "demand": optional {origin id: [value per step]}}.
+    Level 0 starts from the case's values (arguments by name, demands may vary in time); levels 1 and 2 start from a
+    position-only generic vector (the harness knows no layout) with constant controls and disturbances."""
+    tr = case["traj"]
+    K, sym, compact = int(tr["steps"]), tr.get("sym", "SX"), int(tr.get("compact", 0))
+    base = dict(case)
+    base.pop("traj")
+    base.setdefault("rel", {"kind": "none", "has_base": False})
+    base.setdefault("twin", {"expect": "none"})
+    eng = lib(cs_engine, sym)
+    b = lib(Built, base)
+    kw = par_kwargs(base)
+    lib(b.net.step, engine=eng, **opt_kwargs(base), **kw)
+    F = lib(eng.to_function, b.net, compact=compact, more_out=True, **kw)
+    names_in, names_out = list(F.name_in()), list(F.name_out())
+    size_in = [int(F.size1_in(i) * F.size2_in(i)) for i in range(F.n_in())]
+    size_out = [int(F.size1_out(i) * F.size2_out(i)) for i in range(F.n_out())]
+    els = [b.idof.get(el, el.name) for el in b.net.elements]
+    x, u, d = values(base)
+    if compact <= 0:
+        byname = b.byname(x, u, d)
+        cur = {n: list(map(float, byname[n])) for n in names_in}
+    else:
+        rng = random.Random(hash((case.get("id"), 23)) & 0xFFFFFFF)
+        cur = {n: [rng.uniform(10.0, 70.0) for _ in range(size_in[i])] for i, n in enumerate(names_in)}
+    names = base.get("names") or {}
+    recs = []
+    for k in range(K):
+        for o, series in (tr.get("demand") or {}).items():
+            cur[f"d_{names.get(o, o)}"] = [float(num(series[k]))]
+        args = [cur[n] for n in names_in]
+        outs = lib(F, *[cs.DM(a) if len(a) else cs.DM(0, 1) for a in args])
+        outs = [np.asarray(o, float).reshape(-1) for o in (outs if isinstance(outs, (list, tuple)) else [outs])]
+        fn = {"sym": sym, "compact": compact, "more_out": True, "params": [], "ok": True, "err": "", "free": len(F.get_free()),
+              "name_in": names_in, "name_out": names_out, "size_in": size_in, "size_out": size_out,
+              "calls": [{"byname": False, "args": [[fr(z) for z in a] for a in args], "outs": [[fr(z) for z in o] for o in outs]}]}
+        rec = dict(base, id=f"{case['id']}-t{k}", src="trajectory")
+        rec["obs"] = {"valid": True, "nmsgs": 0, "valid_err": "", "elements": els, "elements_ok": True, "np": {"has": False},
+                      "np_plain": {"has": False}, "steps": [], "fn": [fn], "jac": [], "sens": [], "twin": {"has": False}}
+        recs.append(rec)
+        for n, o in zip(names_out, outs):   # feed back: the result named n+ succeeds the argument named n
+            if n.endswith("+") and n[:-1] in cur:
+                cur[n[:-1]] = list(map(float, o))
+        if not all(np.isfinite(o).all() for o in outs):
+            break
+    return recs
+
+
 def run_case(case: dict) -> dict:
     rec = dict(case)
     rec.setdefault("rel", {"kind": "none", "has_base": False})
